@@ -18,6 +18,7 @@ func init() {
 			"(validate-save-notify) in objectImpl.SetProperty (client writes) and stubObject.UpdateProperty (service-side writes) the value is saved and the change event emitted only across a nil verdict of the validator on the same bytes, each exactly once on every success path, save before notify, and no path notifies without saving; " +
 			"(register) objectImpl.properties is only touched under propertiesMutex, writes exclusively; Property reads the value stored under the requested name; " +
 			"(typed) every generated onPropertyChange decodes the bytes with the property's reader and passes a decoding error back (the validator is not called on garbage); every generated Get<Prop> compares the signature of the returned value with the declared one before decoding. " +
+			"(serial) an object's mails are handled one at a time by one goroutine. " +
 			"Not decided: linearizability of concurrent get/set/update histories; that one event reaches each subscriber (see C13).",
 		Assumptions: []string{"sync.RWMutex semantics", "the validator (On<Prop>Change) is user code"},
 		Run:         runC14,
